@@ -207,48 +207,98 @@ func runC19R4(c *Ctx, r *Rep) {
 		r.undecided("star|vm.do_IMPORT_STAR", token.NoPos, "anchor function not found")
 		return
 	}
+	p := c.MustPkg("vm")
+	info := p.TypesInfo
 	r.analysed("vm.do_IMPORT_STAR")
-	var allIf *ast.IfStmt
+	// the comma-ok lookup of "__all__" and the flag it defines
+	var okObj types.Object
 	ast.Inspect(fd.Body, func(n ast.Node) bool {
-		if is, ok := n.(*ast.IfStmt); ok && allIf == nil && is.Init != nil && strings.Contains(stmtStr(is.Init), `"__all__"`) {
-			allIf = is
+		as, ok := n.(*ast.AssignStmt)
+		if !ok || len(as.Lhs) != 2 || len(as.Rhs) != 1 || okObj != nil {
+			return true
 		}
-		return true
-	})
-	if allIf == nil || allIf.Else == nil {
-		r.undecided("star|__all__ branch", fd.Pos(), "no `if all, ok := …[\"__all__\"]; ok {…} else {…}` found; confirm how star import chooses names and update the rule")
-		return
-	}
-	var filters []token.Pos
-	ast.Inspect(fd.Body, func(n ast.Node) bool {
-		if call, ok := n.(*ast.CallExpr); ok && exprStr(call.Fun) == "strings.HasPrefix" && len(call.Args) == 2 && exprStr(call.Args[1]) == `"_"` {
-			filters = append(filters, call.Pos())
-		}
-		return true
-	})
-	if len(filters) == 0 {
-		r.bad("star|underscore filter", fd.Pos(), "no underscore filter at all: without __all__, from m import * must skip names starting with an underscore")
-		return
-	}
-	for _, fp := range filters {
-		inElse := allIf.Else.Pos() <= fp && fp <= allIf.Else.End()
-		r.check(inElse, "star|underscore filter only without __all__", fp,
-			"the underscore filter is applied in the branch for modules without __all__",
-			"the underscore filter is applied outside the no-__all__ branch: names listed in __all__ are bound exactly as listed, including those starting with an underscore")
-	}
-	// the __all__ branch binds through attribute lookup on the module, the other from the module dict
-	binds := 0
-	ast.Inspect(allIf.Body, func(n ast.Node) bool {
-		if as, ok := n.(*ast.AssignStmt); ok {
-			for _, l := range as.Lhs {
-				if strings.Contains(exprStr(l), "Locals[") {
-					binds++
+		if ix, ok := unparen(as.Rhs[0]).(*ast.IndexExpr); ok && exprStr(ix.Index) == `"__all__"` {
+			if id, ok := as.Lhs[1].(*ast.Ident); ok {
+				okObj = info.Defs[id]
+				if okObj == nil {
+					okObj = info.Uses[id]
 				}
 			}
 		}
 		return true
 	})
-	r.check(binds > 0, "star|__all__ names are bound", allIf.Pos(), "each name listed in __all__ is bound in the importer's namespace", "the __all__ branch binds nothing into the importer's namespace")
+	// the if statement deciding on that flag: which branch is taken with __all__, which without
+	var has, hasNot ast.Node
+	var at token.Pos
+	ast.Inspect(fd.Body, func(n ast.Node) bool {
+		is, ok := n.(*ast.IfStmt)
+		if !ok || has != nil || okObj == nil {
+			return true
+		}
+		cond, neg := unparen(is.Cond), false
+		if u, ok := cond.(*ast.UnaryExpr); ok && u.Op == token.NOT {
+			cond, neg = unparen(u.X), true
+		}
+		id, ok := cond.(*ast.Ident)
+		if !ok || info.Uses[id] != okObj || is.Else == nil {
+			return true
+		}
+		at = is.Pos()
+		if neg {
+			has, hasNot = is.Else, is.Body
+		} else {
+			has, hasNot = is.Body, is.Else
+		}
+		return false
+	})
+	if has == nil {
+		r.undecided("star|__all__ branch", fd.Pos(), "no if/else on the presence of \"__all__\" in the module's globals found; confirm how star import chooses names and update the rule")
+		return
+	}
+	isFilter := func(n ast.Node) bool {
+		call, ok := n.(*ast.CallExpr)
+		return ok && exprStr(call.Fun) == "strings.HasPrefix" && len(call.Args) == 2 && exprStr(call.Args[1]) == `"_"`
+	}
+	count := func(root ast.Node, pred func(ast.Node) bool) (n int, first token.Pos) {
+		ast.Inspect(root, func(m ast.Node) bool {
+			if m != nil && pred(m) {
+				if n == 0 {
+					first = m.Pos()
+				}
+				n++
+			}
+			return true
+		})
+		return
+	}
+	all, _ := count(fd.Body, isFilter)
+	inNo, _ := count(hasNot, isFilter)
+	inHas, hp := count(has, isFilter)
+	if all == 0 {
+		r.bad("star|underscore filter", fd.Pos(), "no underscore filter at all: without __all__, from m import * must skip names starting with an underscore")
+		return
+	}
+	bad := hp
+	if inHas == 0 {
+		bad = at
+	}
+	r.check(inNo > 0 && inHas == 0 && inNo == all, "star|underscore filter only without __all__", bad,
+		"the underscore filter is applied in the branch for modules without __all__",
+		"the underscore filter is applied outside the no-__all__ branch: names listed in __all__ are bound exactly as listed, including those starting with an underscore")
+	// the __all__ branch binds into the importer's namespace
+	binds, _ := count(has, func(n ast.Node) bool {
+		as, ok := n.(*ast.AssignStmt)
+		if !ok {
+			return false
+		}
+		for _, l := range as.Lhs {
+			if strings.Contains(exprStr(l), "Locals[") {
+				return true
+			}
+		}
+		return false
+	})
+	r.check(binds > 0, "star|__all__ names are bound", at, "each name listed in __all__ is bound in the importer's namespace", "the __all__ branch binds nothing into the importer's namespace")
 }
 
 func init() {
